@@ -10,8 +10,8 @@ PY = "/venv/bin/python"
 CHECKS = {
     "C01": dict(
         technique="Lean 4 proof: resume exactness of the single-process iterator for every sampler/dataset kind, every k, chains and following epochs (TDV.SP.resume_*), and schedule independence / snapshot bookkeeping of the multi-process protocol (TDV.MP.*); differential (SP) and trace-validation (MP) correspondence; every-position resume oracle on the real loader",
-        text="TDV.SP.resume_exact_map/_iter/_ffwd, resume_chain_*, resume_epochs*, sampler and dataset laws (README dataset included as an instance), with the shared-generator exception refuted and excluded explicitly (known finding). TDV.MP.deterministic, snapshot_fields_map, take_snapshot_assertion_holds_map for every action sequence of the worker/main protocol. The MP constructor path is a theorem for map-style datasets at every interval, W and prefetch factor (TDV.MPR.snapshot_sound_map: a checkpoint after n yields is exactly the ideal state at its snapshot step - the dispatch-time windows of _try_put_index are proved sufficient; restore_ideal_map, resume_exact_map, chain_map for all pairs of schedules) and for iterable datasets at interval 0 (…_iter_partial); for iterable datasets with interval >= 1 the statements are kept as *_statement (resume_exact_iter_of reduces them to snapshot_sound_iter + restore_ideal_iter) and the claim rests on the correspondence legs and on the oracle, which resumes at every interruption position of two epochs for generated configurations (all dataset kinds incl. the README dataset, uneven/empty shards, every snapshot interval, persistent workers, virtual worker processes under adversarial schedules) and on chains of resumes.",
-        note="Partial: for iterable datasets with snapshot interval >= 1 the multi-process snapshot-soundness / restore theorems are not closed (worker-state deltas through retirement); that region is covered by K-D (mpr_kd), K-T and the every-position oracle, not by a theorem. The fast-forward restore branch is covered by the SP theorems and the oracle only. Trusted: Lean kernel + standard axioms; datasets/samplers as parameters with stated laws; torch RNG abstract; virtual processes stand for OS processes.",
+        text="TDV.SP.resume_exact_map/_iter/_ffwd, resume_chain_*, resume_epochs*, sampler and dataset laws (README dataset included as an instance), with the shared-generator exception refuted and excluded explicitly (known finding). TDV.MP.deterministic, snapshot_fields_map, take_snapshot_assertion_holds_map for every action sequence of the worker/main protocol. The MP constructor path is a theorem for map-style AND iterable datasets (uneven/empty shards, workers retired inside the snapshot) at every snapshot interval, W and prefetch factor: TDV.MPR.snapshot_sound_map/_iter (a checkpoint after n yields is exactly the ideal state at its snapshot step - the dispatch-time windows of _try_put_index are proved sufficient), restore_ideal_map/_iter, resume_exact_map/_iter, chain_map/_iter for all pairs of schedules (saving run, resumed run). TDV.E2E.* composes the facade with the real iterator models: sdl_sp_resume_exact / sdl_sp_chain / sdl_mp_map_resume_exact state C01 at the public API (state_dict -> fresh loader -> load_state_dict -> remaining batches and all following epochs, chains by induction). The oracle resumes at every interruption position of two epochs for generated configurations (all dataset kinds incl. the README dataset, uneven/empty shards, every snapshot interval, persistent workers, virtual worker processes under adversarial schedules) and on chains of resumes.",
+        note="Partial: the fast-forward restore branch of the multi-process iterator (datasets without any state) and persistent-worker resume are covered by the SP theorems, the correspondence legs and the oracle, not by an MP theorem; failing fetches are excluded from the MP restore theorems (NoErr). Trusted: Lean kernel + standard axioms; datasets/samplers as parameters with stated laws; torch RNG abstract; virtual processes stand for OS processes.",
         ref="DESIGN.md §7 C01",
     ),
     "C03": dict(
